@@ -219,9 +219,20 @@ def gen_class_with_init(rng, name="C_target", style=None):
     for c in cvars:
         lines.append("    :cvar {}: the zqc_{} class level description".format(c, c))
     lines += ['    """', ""]
+    # attributes that are only DECLARED in the class body (no concrete value): the __init__ default must fill the gap
+    declared = []
+    for pr in f.params:
+        if pr["kind"] != "kwargs" and rng.random() < 0.3:
+            if pr["annotation"]:
+                lines.append("    {}: {}{}".format(pr["name"], pr["annotation"], rng.choice(["", " = None"])))
+            else:
+                lines.append("    {} = None".format(pr["name"]))
+            declared.append(pr["name"])
+    if declared:
+        lines.append("")
     for l in f.src.rstrip("\n").split("\n"):
         lines.append("    " + l)
-    return FuncSpec(src="\n".join(lines) + "\n", init=f, name=name, cvars=cvars)
+    return FuncSpec(src="\n".join(lines) + "\n", init=f, name=name, cvars=cvars, declared=declared)
 
 
 # ------------------------------------------------------------------------------ modules
